@@ -13,7 +13,11 @@ use crate::{
 };
 
 pub fn run_case(mode: &str, seed: u64, keep_log: bool) -> (CaseResult, Vec<String>) {
-    crate::kit::entropy::isolated(seed, || run_case_inner(mode, seed, keep_log))
+    crate::kit::entropy::isolated(seed, || {
+        let (mut r, log) = run_case_inner(mode, seed, keep_log);
+        r.draws = crate::kit::tape::draws();
+        (r, log)
+    })
 }
 
 fn run_case_inner(mode: &str, seed: u64, keep_log: bool) -> (CaseResult, Vec<String>) {
